@@ -30,6 +30,13 @@ def rand_hist(rng, U, M, n):
         if r < 0.27:
             h.append({"op": "pop"})        # table.remove(t): clears t[#t], also in the middle of a traversal
             continue
+        if r < 0.285:
+            # table.insert(t, #t + d, v) / tb.Insert: at or behind the end nothing moves, it is the store t[#t + d] = v
+            d = rng.choice([1, 2, 2, 3])
+            if arrmax + d <= 4:            # keeps every later append inside the key universe
+                h.append({"op": "insert", "d": d, "v": rng.choice([v for v in VALS if v != ["nil"]])})
+                arrmax += d
+            continue
         if r < 0.30:
             v = rng.choice(VALS)
             if arrmax < 4:
@@ -78,6 +85,25 @@ def trav_clear_hists(rng, U, M, n):
             h += [{"op": "next"}] * (len(ks) + 2)
             out.append(h)
     return out[:n]
+
+
+def insert_end_hists(U, M):
+    """directed: a list 1..k filled through every path, its last j elements cleared by plain stores (the array part
+    keeps the slots) or by table.remove (it shrinks), then table.insert / tb.Insert at #t+1, #t+2, #t+3, then reads"""
+    out = []
+    top = max(k[1] for k in U if k[0] == "n" and 0 < k[1] < 10)
+    for k in range(1, min(top, 4) + 1):
+        for j in range(0, k + 1):
+            for clear in ("store", "pop"):
+                for d in (1, 2, 3):
+                    for fill in ("RawSetInt", "lua", "append"):
+                        h = [({"op": "append", "v": ["n", 10]} if fill == "append" else {"op": "set", "path": fill, "k": ["n", i], "v": ["n", 10]}) for i in range(1, k + 1)]
+                        for c in range(j):
+                            h.append({"op": "set", "path": "lua", "k": ["n", k - c], "v": ["nil"]} if clear == "store" else {"op": "pop"})
+                        h.append({"op": "insert", "d": d, "v": ["s", "x"]})
+                        h += [{"op": "next", "restart": True}] + [{"op": "next"}] * (k + 2)
+                        out.append(h)
+    return out
 
 
 def case_key(tr, bad, M=0):
@@ -190,12 +216,18 @@ def run(tier):
         for h in hists:
             distinct.add(vlib.canon_hash(h))
         vlib.log("[C09] traversal with the visited key cleared/overwritten %s: %d histories validated" % (tag, n))
+        hists = insert_end_hists(U, M or 67108864)
+        recs, n = run_histories(hists, U, M, tag.replace("r", "ie", 1), verd, stats, obsall=True)
+        total += n
+        for h in hists:
+            distinct.add(vlib.canon_hash(h))
+        vlib.log("[C09] insert at/behind the end after clearing the tail %s: %d histories validated" % (tag, n))
     rc = verd.finish()
     vlib.write_evidence(PROP, tier, "model_checking", {
         "states": stats["states"], "transitions": stats["transitions"],
         "traces_validated_against_impl": total,
         "evaluations": total, "distinct_nontrivial": len(distinct),
-        "rule": "histories = one per transition of TableImpl's state graph (BFS, VIEW without history) for lua.MaxArrayIndex=5 and default, plus seeded random histories (traversal steps interleaved with stores, including clearing/overwriting the key just visited) and directed complete traversals clearing the visited key at every step; distinct by canonical hash of the operation list, non-trivial = at least 2 operations",
+        "rule": "histories = one per transition of TableImpl's state graph (BFS, VIEW without history) for lua.MaxArrayIndex=5 and default, plus seeded random histories (traversal steps interleaved with stores, including clearing/overwriting the key just visited) and directed complete traversals clearing the visited key at every step; table.insert / tb.Insert at and behind the end of lists whose tail was cleared by stores or removes; distinct by canonical hash of the operation list, non-trivial = at least 2 operations",
         "samples": samples, "mc_runs": mc, "exhaustive": False,
         "known_findings_hit": sorted(verd.known_hit),
     }, time.time() - t0, len(verd.violations), assumptions=[
@@ -210,11 +242,14 @@ def replay(path):
     tr = rec["replay"]["trace"]
     cfgtag = rec["replay"]["config"]
     U = tr["U"]
-    M = 5 if cfgtag in ("lo", "rlo", "tclo") else 0
+    M = 5 if cfgtag in ("lo", "rlo", "tclo", "ielo") else 0
     hist = []
     for e in tr["ev"]:
         if e.get("entry") in ("lua:table.remove", "tb.Remove"):
             hist.append({"op": "pop"})
+            continue
+        if e.get("entry") in ("lua:table.insert", "tb.Insert"):
+            hist.append({"op": "insert", "at": e["k"][1], "v": e["v"]})
             continue
         op = {"op": e["op"]}
         for k in ("k", "v"):
